@@ -72,34 +72,69 @@ func (w *ConfWatcher) run() {
 	var lastCalled time.Time
 	previousWatchedPath, _ := filepath.EvalSymlinks(w.absolutePath)
 
+	// events that arrive less than minInterval after the last signal
+	// are not dropped, they are processed when the interval has elapsed.
+	var delayedEvents []fsnotify.Event
+	delayedTimer := time.NewTimer(0)
+	<-delayedTimer.C
+
+	// returns false when terminated
+	processEvent := func(event fsnotify.Event) bool {
+		currentWatchedPath, _ := filepath.EvalSymlinks(w.absolutePath)
+		eventPath, _ := filepath.Abs(event.Name)
+		eventPath, _ = filepath.EvalSymlinks(eventPath)
+
+		if currentWatchedPath == "" {
+			// watched file was removed; wait for write event to trigger reload
+			previousWatchedPath = ""
+		} else if currentWatchedPath != previousWatchedPath ||
+			(eventPath == currentWatchedPath &&
+				((event.Op&fsnotify.Write) == fsnotify.Write ||
+					(event.Op&fsnotify.Create) == fsnotify.Create)) {
+			// wait some additional time to allow the writer to complete its job
+			time.Sleep(additionalWait)
+			previousWatchedPath = currentWatchedPath
+
+			lastCalled = time.Now()
+
+			select {
+			case w.signal <- struct{}{}:
+			case <-w.terminate:
+				return false
+			}
+		}
+
+		return true
+	}
+
 outer:
 	for {
 		select {
 		case event := <-w.inner.Events:
 			if time.Since(lastCalled) < minInterval {
+				if len(delayedEvents) == 0 {
+					delayedTimer = time.NewTimer(minInterval - time.Since(lastCalled))
+				}
+				delayedEvents = append(delayedEvents, event)
 				continue
 			}
 
-			currentWatchedPath, _ := filepath.EvalSymlinks(w.absolutePath)
-			eventPath, _ := filepath.Abs(event.Name)
-			eventPath, _ = filepath.EvalSymlinks(eventPath)
+			if !processEvent(event) {
+				break outer
+			}
 
-			if currentWatchedPath == "" {
-				// watched file was removed; wait for write event to trigger reload
-				previousWatchedPath = ""
-			} else if currentWatchedPath != previousWatchedPath ||
-				(eventPath == currentWatchedPath &&
-					((event.Op&fsnotify.Write) == fsnotify.Write ||
-						(event.Op&fsnotify.Create) == fsnotify.Create)) {
-				// wait some additional time to allow the writer to complete its job
-				time.Sleep(additionalWait)
-				previousWatchedPath = currentWatchedPath
+		case <-delayedTimer.C:
+			events := delayedEvents
+			delayedEvents = nil
 
-				lastCalled = time.Now()
+			for _, event := range events {
+				// a signal sent while processing this batch
+				// covers the remaining events, which are older
+				if time.Since(lastCalled) < minInterval {
+					break
+				}
 
-				select {
-				case w.signal <- struct{}{}:
-				case <-w.terminate:
+				if !processEvent(event) {
 					break outer
 				}
 			}
@@ -112,6 +147,7 @@ outer:
 		}
 	}
 
+	delayedTimer.Stop()
 	close(w.signal)
 	w.inner.Close() //nolint:errcheck
 }
